@@ -363,7 +363,7 @@ def _naive_eof(text: str, sc: Scan) -> T.Tuple[int, int]:
 
 # Known-defect classes whose affected clause is skipped (and counted) in the campaigns.  Remove a key here once the defect is
 # fixed in the tree (or set VERIF_C02_ENFORCE=key,key,... / =all for one run - development aid) and the class is searched again.
-EXCLUDE_KNOWN = {'not', 'nlstr', 'kwpos', 'deep', 'bignum', 'emptykey', 'eofml'}
+EXCLUDE_KNOWN = {'kwpos', 'deep'}   # 'not', 'nlstr', 'bignum', 'emptykey', 'eofml' (and the parse half of 'deep') are fixed in /repo
 _enf = set(x for x in os.environ.get('VERIF_C02_ENFORCE', '').split(',') if x)
 if 'all' in _enf:
     EXCLUDE_KNOWN = set()
